@@ -166,7 +166,7 @@ pub fn case_history(ctx: &mut Ctx, world: &World, gi: &GInfo, rule: usize, tape:
 pub fn run(world: &World, ctx: &mut Ctx) -> Option<Value> {
     ctx.ev.rule = RULE.to_string();
     let pairs = super::pairs(world, &[]);
-    let total = ctx.tier.pick(60_000u64, 1_200_000u64);
+    let total = ctx.tier.pick(100_000u64, 1_500_000u64);
     let n = super::per_pair(total, pairs.len(), 20, 20_000);
     ctx.ev.extra.insert("grammar_rule_pairs".into(), json!(pairs.len()));
     ctx.ev.extra.insert("cases_per_pair".into(), json!(n));
